@@ -580,41 +580,17 @@ def whereFilter (len : Nat) (out : Out) : Except Err (List Nat) :=
   | .integer, .scalarI c => if c = 0 then .ok [] else .ok (List.range len)
   | _, _ => .error .type
 
-/-- String literals of the predicate that are compared with a string column of this partition, with the way the column
-    is stored: `true` = dictionary codec (the literal is consumed by the non-streaming `InverseDictLookup`), `false` =
-    decoded strings (the literal is consumed by a comparison inside a streaming stage). -/
-def strCmpLits (part : Part) : Expr → List (Bytes × Bool)
-  | .cmp _ (.col j) (.lit (.str s)) | .cmp _ (.lit (.str s)) (.col j) =>
-      match colRef part j with
-      | .ok o => if o.ty.decoded.nonNullable == .string then [(s, isDictCodec o.ty.ops)] else []
-      | .error _ => []
-  | .cmp _ l r => strCmpLits part l ++ strCmpLits part r
-  | .and l r | .or l r => strCmpLits part l ++ strCmpLits part r
-  | .not e | .isNull e | .isNotNull e => strCmpLits part e
-  | _ => []
-
-/-- Open finding C03-shared-str-const-panic: the planner's common-subexpression cache shares one `ScalarStr` buffer
-    between all uses of the same literal; when one consumer is `InverseDictLookup` (cannot stream) and another a
-    comparison in a streaming stage, `QueryExecutor::partition` tries to insert a block buffer for the scalar,
-    `operator::buffer` rejects the type and the `unwrap` panics on the worker (executor.rs).  The stage partitioner is
-    not modelled; this predicate is the observed trigger. -/
-def sharedStrLiteral (part : Part) (e : Expr) : Bool :=
-  let ls := strCmpLits part e
-  ls.any fun x => x.2 && ls.any fun y => !y.2 && y.1 == x.1
-
 /-- `NormalFormQuery::run`: compile the WHERE expression, choose the filter, apply it to the projected column;
     `prepare` then rejects operators it cannot instantiate (FatalError).  Result: indices (within the partition) of the
-    rows that are kept. -/
+    rows that are kept.  (The stage partitioner `QueryExecutor::partition` is not modelled; until fix 186ef0c it panicked
+    when one string literal was shared between InverseDictLookup and a streamed comparison — witness `C03W.Ex2`.) -/
 def implFilter (fp : FP) (part : Part) (e : Expr) : Except Err (List Nat) :=
   match compile fp part e with
   | .error err => .error err
   | .ok out =>
     match whereFilter part.len out with
     | .error err => .error err
-    | .ok idx =>
-      if out.poison then .error .fatal
-      else if sharedStrLiteral part e then .error .panic      -- executor.prepare → partition() panics
-      else .ok idx
+    | .ok idx => if out.poison then .error .fatal else .ok idx
 
 /-- Outcome of the whole query over all partitions. -/
 inductive QOut where
